@@ -8,6 +8,7 @@ use crate::model_resolve::{DeclKey, Resolver, Target};
 use crate::model_shrink::*;
 use crate::rng::{mix, Rng};
 use crate::worker::{guard, Obs, Property, Stream, Tier};
+use oq3_semantics::semantic_error::SemanticErrorKind;
 use oq3_semantics::symbols::SymbolError;
 use oq3_semantics::types::Type;
 use std::collections::HashMap;
@@ -30,15 +31,41 @@ fn multiset(v: &[String]) -> Vec<(String, usize)> {
     o
 }
 
-fn check(prog: &[S], seed: u64) -> (Out, String) {
+/// `split = Some((j, mids))`: the first j top-level statements are moved into the innermost file of an
+/// include chain with `mids` files in between that declare nothing (analysed through the search-path
+/// entry point); the graph, the table and the diagnostics of all files together must be as for the flat text.
+fn check(prog: &[S], seed: u64, split: Option<(usize, usize)>) -> (Out, String) {
     let lay = sem_layout(seed, seed % 3 == 0);
-    let a = match analyse(prog, &lay) {
+    let analysed = match split {
+        None => analyse(prog, &lay).map(|a| {
+            let src = a.printed.text.clone();
+            let diags: Vec<(String, SemanticErrorKind, String)> = a
+                .res
+                .semantic_errors()
+                .iter()
+                .map(|e| {
+                    let (x, y): (usize, usize) = (e.range().start().into(), e.range().end().into());
+                    (diag_kind(e), e.kind().clone(), src.get(x..y).unwrap_or("").to_string())
+                })
+                .collect();
+            (a.res, diags, a.printed.text)
+        }),
+        Some((j, mids)) => {
+            let j = j.min(prog.len());
+            let inner = print_program(&prog[..j], &lay).text;
+            let rest = print_program(&prog[j..], &lay).text;
+            analyse_chain(&inner, &rest, mids, "c07").map(|c| {
+                let diags = c.diags.into_iter().map(|d| (d.kind, d.full, d.text)).collect();
+                (c.res, diags, format!("[inner.inc through {mids} clean files] {inner} [main] {rest}"))
+            })
+        }
+    };
+    let (res, diags, text) = match analysed {
         Err(AErr::Rejected(m)) => return (Out::Inconclusive(format!("rejected by the parser (C04): {m}")), String::new()),
         Err(AErr::Panic(site, _)) => return (Out::Inconclusive(format!("analysis panicked (C03): {site}")), String::new()),
         Ok(a) => a,
     };
-    let text = a.printed.text.clone();
-    let res = &a.res;
+    let res = &res;
     let r = guard(|| -> Out {
         let mut w = Walk::default();
         if let Err((role, d)) = w.program(prog, res.program()) {
@@ -129,19 +156,16 @@ fn check(prog: &[S], seed: u64) -> (Out, String) {
             }
         }
         // ---- diagnostics: exactly once per unresolved use / duplicate
-        let src = res.syntax_result().source().to_string();
         let mut got_var = Vec::new();
         let mut got_gate = Vec::new();
         let mut got_redecl = Vec::new();
-        for e in res.semantic_errors().iter() {
-            let (a, b): (usize, usize) = (e.range().start().into(), e.range().end().into());
-            let t = src.get(a..b).unwrap_or("");
+        for (kind, full, t) in &diags {
             let name: String = t.chars().take_while(|c| c.is_alphanumeric() || *c == '_').collect();
-            match diag_kind(e).as_str() {
+            match kind.as_str() {
                 "UndefVarError" => got_var.push(name),
                 "UndefGateError" => got_gate.push(name),
                 "RedeclarationError" => {
-                    if let oq3_semantics::semantic_error::SemanticErrorKind::RedeclarationError(n) = e.kind() {
+                    if let SemanticErrorKind::RedeclarationError(n) = full {
                         got_redecl.push(n.clone());
                     }
                 }
@@ -174,9 +198,13 @@ fn check(prog: &[S], seed: u64) -> (Out, String) {
     }
 }
 
-fn check_program(prog: &[S], seed: u64, obs: &mut Obs) {
+fn check_program(prog: &[S], seed: u64, split: Option<(usize, usize)>, obs: &mut Obs) {
     obs.fp.str(&skel_program(prog));
-    match check(prog, seed) {
+    if let Some((j, mids)) = split {
+        obs.fp.u64(j as u64 * 8 + mids as u64 + 1);
+        obs.class("split-across-include-chain");
+    }
+    match check(prog, seed, split) {
         (Out::Held(classes), text) => {
             for c in &classes {
                 obs.class(c);
@@ -191,12 +219,14 @@ fn check_program(prog: &[S], seed: u64, obs: &mut Obs) {
             obs.inconclusive(why);
         }
         (Out::Violated(cell0, _), _) => {
-            let mut pred = |p: &[S]| matches!(check(p, seed), (Out::Violated(c, _), _) if c == cell0);
-            let min = shrink_program(prog, &mut pred, 800);
-            let (cell, d, text) = match check(&min, seed) {
+            // (a split program is reported as it is: shrinking would move the split point)
+            let mut pred = |p: &[S]| matches!(check(p, seed, None), (Out::Violated(c, _), _) if c == cell0);
+            let min = if split.is_some() { prog.to_vec() } else { shrink_program(prog, &mut pred, 800) };
+            let (cell, d, text) = match check(&min, seed, split) {
                 (Out::Violated(c, d), t) => (c, d, t),
                 _ => (cell0.clone(), String::new(), String::new()),
             };
+            let cell = if split.is_some() { format!("via-include-chain/{cell}") } else { cell };
             obs.violate(format!("{cell}/{}", skel_program(&min)), format!("{:?}: {d}", text.trim()));
             obs.done(true);
         }
@@ -215,12 +245,13 @@ impl Property for C07 {
             Stream::new("random-programs-small-name-pool", tier.pick(30_000, 1_500_000), false, move |i| format!("rand:{}", mix(&[seed, 0xC07, 1, i]))),
             Stream::new("random-programs-deep", tier.pick(4_000, 200_000), false, move |i| format!("deep:{}", mix(&[seed, 0xC07, 2, i]))),
             Stream::new("scope-kind-table", 9 * 4, true, |i| format!("scope:{}:{}", i % 9, i / 9)),
+            Stream::new("random-programs-split-across-include-chains", tier.pick(3_000, 100_000), false, move |i| format!("inc:{}", mix(&[seed, 0xC07, 3, i]))),
         ]
     }
     fn check(&self, input: &str, obs: &mut Obs) {
         let parts: Vec<&str> = input.split(':').collect();
         match parts[0] {
-            "rand" | "deep" => {
+            "rand" | "deep" | "inc" => {
                 let seed: u64 = parts[1].parse().unwrap_or(0);
                 let mut r = Rng::new(seed);
                 let deep = parts[0] == "deep";
@@ -236,7 +267,13 @@ impl Property for C07 {
                 };
                 let mut g = MG::new(&mut r, cfg);
                 let prog = g.program();
-                check_program(&prog, seed, obs);
+                let split = if parts[0] == "inc" {
+                    // split point 1..=len, 0..=2 clean files between main and the innermost file
+                    Some((1 + (seed >> 8) as usize % prog.len().max(1), (seed >> 20) as usize % 3))
+                } else {
+                    None
+                };
+                check_program(&prog, seed, split, obs);
             }
             "scope" => {
                 // a declaration inside scope kind k, then a use after the scope closed (variant v)
@@ -246,13 +283,13 @@ impl Property for C07 {
                 let mut g = MG::new(&mut r, GenCfg::semantic());
                 let prog = scope_case(&mut g, k, v);
                 obs.class("scope-table");
-                check_program(&prog, k * 7 + v, obs);
+                check_program(&prog, k * 7 + v, None, obs);
             }
             _ => obs.inconclusive("unrecognised input spec"),
         }
     }
     fn mandatory_classes(&self, _tier: Tier) -> Vec<&'static str> {
-        vec!["shadowed:use", "outer:use", "same-scope:use", "after-exit:use", "undeclared", "duplicate", "builtin:use", "scope-table"]
+        vec!["shadowed:use", "outer:use", "same-scope:use", "after-exit:use", "undeclared", "duplicate", "builtin:use", "scope-table", "split-across-include-chain"]
     }
 }
 
